@@ -138,7 +138,8 @@ AtOrAbove(H, kind, v) == ClsOf(H, v) = "above" \/ (ClsOf(H, v) = "at" /\ UnitOf(
 PosAll(H) == UNION {DOMAIN H.calls[k].arg : k \in WCalls(H)}
 ElemInst(H, cls) == UNION {{<<k, p>> : p \in {q \in DOMAIN H.calls[k].arg : ClsOf(H, H.calls[k].arg[q]) = cls}} : k \in WGood(H)}
 ElemSat(H, i) == LET e == H.calls[i[1]] IN
-     RelOf(H, e.arg[i[2]], e.res[i[2]]) \in Allowed(e.fn, ClsOf(H, e.arg[i[2]]), e.kind)
+     /\ i[2] \in DOMAIN e.res        \* an answer with fewer elements than the input satisfies nothing
+     /\ RelOf(H, e.arg[i[2]], e.res[i[2]]) \in Allowed(e.fn, ClsOf(H, e.arg[i[2]]), e.kind)
 
 (* pairs of calls where the second was handed the answer of the first *)
 ChainInst(H, f1, f2) ==
@@ -150,7 +151,8 @@ ChainInst(H, f1, f2) ==
 AirVacAirInst(H) == {i \in ChainInst(H, "airtovac", "vactoair") : AtOrAbove(H, H.calls[i[1]].kind, H.calls[i[1]].arg[i[3]])}
 (* airtovac(vactoair(v)) = v wherever vactoair(v) >= 2000 A *)
 VacAirVacInst(H) == {i \in ChainInst(H, "vactoair", "airtovac") : AtOrAbove(H, H.calls[i[2]].kind, H.calls[i[1]].res[i[3]])}
-ChainSat(H, i) == Close(H, H.calls[i[1]].arg[i[3]], H.calls[i[2]].res[i[3]])
+ChainSat(H, i) == /\ i[3] \in DOMAIN H.calls[i[2]].res
+                  /\ Close(H, H.calls[i[1]].arg[i[3]], H.calls[i[2]].res[i[3]])
 
 (* the same wavelength through two calls of the same function (float, array element,      *)
 (* Quantity in any unit) gives the same physical answer.  At the guard only Angstrom      *)
@@ -162,7 +164,8 @@ KindInst(H) ==
       /\ H.calls[i[1]].arg[i[3]] = H.calls[i[2]].arg[i[4]]
       /\ \/ ClsOf(H, H.calls[i[1]].arg[i[3]]) # "at"
          \/ (UnitOf(H.calls[i[1]].kind) = "A" /\ UnitOf(H.calls[i[2]].kind) = "A")}
-KindSat(H, i) == Close(H, H.calls[i[1]].res[i[3]], H.calls[i[2]].res[i[4]])
+KindSat(H, i) == /\ i[3] \in DOMAIN H.calls[i[1]].res /\ i[4] \in DOMAIN H.calls[i[2]].res
+                 /\ Close(H, H.calls[i[1]].res[i[3]], H.calls[i[2]].res[i[4]])
 
 CallSat_NoRaise(H, k) == ~H.calls[k].raised
 CallSat_InputKept(H, k) == H.calls[k].kept
